@@ -750,6 +750,12 @@ pub fn gen_ops(rng: &mut Rng, keys: &[Vec<u8>], seps: &[Vec<u8>], n_ops: usize) 
         format!("tbo:{}:{}", p[1], p[2])
     }).collect();
     ops.extend(tbo);
+    // every automaton search again with a limit (bounds + limit + automaton together)
+    let autl: Vec<String> = ops.iter().filter(|o| o.starts_with("aut:")).map(|o| {
+        let lim = [0u64, 1, 2, 5][o.len() % 4];
+        format!("autl:{}:{}", &o[4..], lim)
+    }).collect();
+    ops.extend(autl);
     ops
 }
 
@@ -809,23 +815,35 @@ pub fn check_ops<T: SSTable>(ctx: &mut Ctx, codec: &Codec<T>, case: &DictCase, d
     }
     // translate ops for the model (automata become explicit tables)
     let mut tables: Vec<String> = vec![];
+    let mut table_of: HashMap<String, usize> = HashMap::new();
     let mut lean_ops: Vec<String> = vec![];
     for op in &case.ops {
         let parts: Vec<&str> = op.split(':').collect();
-        if parts[0] == "aut" {
+        if parts[0] == "aut" || parts[0] == "autl" {
             let spec = AutSpec::parse(parts[1]);
             let lean_aut = match &spec {
                 Some(AutSpec::Prefix(p)) => Some(format!("p{}", hex(p))),
-                Some(s) => {
-                    let t: Option<String> = c15_with_aut!(s, a, explore(&a, 400), None);
-                    t.map(|t| {
-                        tables.push(t);
-                        format!("t{}", tables.len() - 1)
-                    })
-                }
+                Some(s) => match table_of.get(parts[1]) {
+                    Some(i) => Some(format!("t{i}")),
+                    None => {
+                        let t: Option<String> = c15_with_aut!(s, a, explore(&a, 400), None);
+                        t.map(|t| {
+                            tables.push(t);
+                            table_of.insert(parts[1].to_string(), tables.len() - 1);
+                            format!("t{}", tables.len() - 1)
+                        })
+                    }
+                },
                 None => None,
             };
             match lean_aut {
+                Some(a) if parts[0] == "autl" => {
+                    let wam: bool = match &spec {
+                        Some(s) => c15_with_aut!(s, au, au.will_always_match(&au.start()), false),
+                        None => false,
+                    };
+                    lean_ops.push(format!("autl:{}:{}:{}:{}:{}", a, parts[2], parts[3], parts[4], if wam { 1 } else { 0 }))
+                }
                 Some(a) => lean_ops.push(format!("aut:{}:{}:{}", a, parts[2], parts[3])),
                 None => {
                     ctx.report.count("aut:not-sent-to-model");
@@ -955,6 +973,38 @@ pub fn check_ops<T: SSTable>(ctx: &mut Ctx, codec: &Codec<T>, case: &DictCase, d
                         bad(ctx, "oracle", "C15:value-from-ord-wrong", format!("term_info_from_ord({o}) = {:?}, Lean spec {spec}", real));
                     } else if shown != model {
                         bad(ctx, "model", "C15:value-from-ord-model", format!("real {shown} model {model}"));
+                    }
+                }
+            }
+            "autl" => {
+                let aspec = match AutSpec::parse(parts[1]) {
+                    Some(a) => a,
+                    None => continue,
+                };
+                let lo = Bnd::parse(parts[2]);
+                let hi = Bnd::parse(parts[3]);
+                let lim: u64 = parts[4].parse().unwrap_or(0);
+                let res: Option<(Result<Vec<(u64, Vec<u8>, V2)>, String>, Vec<bool>)> = c15_with_aut!(&aspec, a, {
+                    let acc: Vec<bool> = sorted.iter().map(|e| accepts(&a, e.0)).collect();
+                    Some((real_stream(dict, codec, Some(a), &lo, &hi, Some(lim)), acc))
+                }, None);
+                let (real, acc) = match res {
+                    Some(x) => x,
+                    None => continue,
+                };
+                let want: Vec<(Vec<u8>, V2)> = sorted.iter().enumerate().filter(|(i, e)| acc[*i] && lo.lo_ok(e.0) && hi.hi_ok(e.0)).map(|(_, e)| (e.0.clone(), *e.1)).collect();
+                match real {
+                    Err(e) => bad(ctx, "oracle", "C15:search-limit-panics", format!("automaton stream with limit failed: {e}")),
+                    Ok(real) => {
+                        let kv: Vec<(Vec<u8>, V2)> = real.iter().map(|e| (e.1.clone(), e.2)).collect();
+                        let is_prefix = kv.len() <= want.len() && kv.iter().zip(want.iter()).all(|(a, b)| a == b);
+                        let enough = kv.len() as u64 >= lim.min(want.len() as u64);
+                        let real_d = digest(&real.iter().map(|e| (e.0, e.1.clone(), e.2 .0)).collect::<Vec<_>>());
+                        if !is_prefix || !enough {
+                            bad(ctx, "oracle", "C15:search-limit-stream-wrong", format!("automaton stream with limit {lim} returned {} entries, filter-accepts gives {}; prefix={is_prefix} enough={enough}", kv.len(), want.len()));
+                        } else if !model.is_empty() && spec != "skip" && real_d != model {
+                            bad(ctx, "model", "C15:search-limit-model", format!("real digest {real_d}, model (bounds + limit + automaton) {model}"));
+                        }
                     }
                 }
             }
